@@ -95,6 +95,15 @@ def enclosing_tests(root, node, stop_at=None):
   return out
 
 
+def exclusive(root, a, b):
+  """True when a and b lie in different arms of one If statement (they can never both run in one pass over that statement)."""
+  ta = {id(t): pol for (t, pol) in enclosing_tests(root, a)}
+  for (t, pol) in enclosing_tests(root, b):
+    if id(t) in ta and ta[id(t)] != pol:
+      return True
+  return False
+
+
 def same_block(root, a, b):
   pa = parent(root, a)
   pb = parent(root, b)
